@@ -448,6 +448,9 @@ unit({
             calls={'Read': {1: [(r'.*', T('Rd_ReadU32T', args=['obj']))]}, 'resize': T('vec_Animation_resize'), 'ReadAnimation': T('ArtFile_ReadAnimation_U', recv='none', args=['ref']),
                    'VerifyCountsMatchHeader': T('ArtFile_VerifyCountsMatchHeader_U', recv='none', args=['ref', None, None, None])},
             views=[(r'\(\*artFile\)\.animations', 'vec')]),
+        _fn('src/Sprite/ArtReader.cpp', 'ArtFile::Read', 'ArtFile_Read', cls='ArtFile', static=True, ordinal=1, ret_cxx='ArtFile',
+            calls={'ReadPalette': T('ArtFile_ReadPalette_U', recv='none', args=['ref', 'ref']), 'ReadImageMetadata': T('ArtFile_ReadImageMetadata_U', recv='none', args=['ref', 'ref']),
+                   'ReadAnimations': T('ArtFile_ReadAnimations_U', recv='none', args=['ref', 'ref'])}),
         _fn('src/Sprite/ArtReader.cpp', 'ArtFile::VerifyCountsMatchHeader', 'ArtFile_VerifyCountsMatchHeader', cls='ArtFile', static=True,
             calls={'CountFrames': N('ArtFile_CountFrames_U', args=['ref', 'ref', 'ref'])}),
         _fn('src/Sprite/ArtReader.cpp', 'ArtFile::ReadImageMetadata', 'ArtFile_ReadImageMetadata', cls='ArtFile', static=True,
